@@ -97,63 +97,98 @@ def run(ctx):
         return
     v = n
     idle = idle_state(f)
-    # ---- C10.2 ----
-    wacks = [l for l in v.fsm_leaves(f, idle) if l.kind == "assign" and key(l.target) == ACK and WE in v.guard_keys(l, False)]
-    inval = [l for l in v.fsm_leaves(f) if l.kind == "nextvalue" and key(l.target) == "rd_cache_valid" and is0(l.value)]
-    if ob2.need(len(wacks) >= 1 and len(inval) >= 2, "write-accept acknowledges / cache invalidations not found"):
-        for l in wacks:
-            g = v.guard_keys(l, False)
-            okk = any(v.guard_keys(i, False) <= g for i in inval if i.state == idle)
-            ob2.instance("write beat accepted", {"guards": sorted(g), "invalidates": [sorted(v.guard_keys(i, False)) for i in inval if i.state == idle]})
-            if not okk:
-                ob2.refute("write-keeps-cache", "a write beat is acknowledged under %s but the read cache is only invalidated under %s: a merged (not yet "
-                           "flushed) write leaves the cached word valid and a following read of that word returns the old bytes" %
-                           (sorted(g), [sorted(v.guard_keys(i, False)) for i in inval if i.state == idle]), l.loc)
-    hits = [l for l in v.fsm_leaves(f, idle) if l.kind == "assign" and key(l.target) == ACK and "rd_cache_hit" in v.guard_keys(l, False)]
-    for l in hits:
+    # role: the wide-address signal = source of the register that addresses the read command
+    WIDE = None
+    rdst = {l.state for l in v.fsm_leaves(f) if l.kind == "assign" and key(l.target) == "port.cmd.we" and is0(l.value)}
+    for l in v.fsm_leaves(f):
+        if l.kind == "assign" and key(l.target) == "port.cmd.addr" and l.state in rdst:
+            for m_ in v.fsm_leaves(f, idle):
+                if m_.kind == "nextvalue" and key(m_.target) == key(l.value):
+                    WIDE = key(m_.value)
+    if WIDE is None:
+        ob4.unknown("narrow path: wide-address signal not identified")
+        return
+    # ---- C10.2 ---- (signals found by role, not by name)
+    idle_ls = v.fsm_leaves(f, idle)
+    wacks = [l for l in idle_ls if l.kind == "assign" and key(l.target) == ACK and WE in v.guard_keys(l, False)]
+    if not ob2.need(len(wacks) >= 1, "write-accept acknowledge not found"):
+        return
+    wg = v.guard_keys(wacks[0], False)
+    WV = None            # role: pending merged write
+    for l in idle_ls:
+        if l.kind == "nextvalue" and is1(l.value) and v.guard_keys(l, False) == wg and isinstance(l.target, (Obj, Sym)):
+            WV = key(l.target)
+    racks = [l for l in idle_ls if l.kind == "assign" and key(l.target) == ACK and "~" + WE in v.guard_keys(l, False)]
+    H = None
+    if racks and WV:
+        extra = v.guard_keys(racks[0], False) - {CYC, STB, "~" + WE, "~" + WV}
+        if len(extra) == 1:
+            H = sorted(extra)[0]
+    hv = v.single_comb_def(Sym(H)) if H else None
+    CV = CA = None
+    if hv is not None:
+        for a_, p_ in conj(hv):
+            if p_ and isinstance(a_, (Obj, Sym)):
+                CV = key(a_)
+            if p_ and isinstance(a_, Op) and a_.op == "==":
+                CA = [key(x) for x in a_.args]
+    ob2.instance("roles", {"pending_write": WV, "cache_hit": H, "cache_valid": CV, "cache_addr_compare": CA})
+    if not ob2.need(WV is not None and H is not None and CV is not None and CA is not None, "read-cache / merge-buffer signals not identified by role"):
+        return
+    if WIDE not in CA:
+        ob2.refute("hit-def", "the cache hit compares %s: not against the wide address of the current access" % CA, None)
+    inval = [l for l in v.fsm_leaves(f) if l.kind == "nextvalue" and key(l.target) == CV and is0(l.value)]
+    for l in wacks:
+        g = v.guard_keys(l, False)
+        okk = any(v.guard_keys(i, False) <= g for i in inval if i.state == idle)
+        ob2.instance("write beat accepted", {"guards": sorted(g), "invalidates": [sorted(v.guard_keys(i, False)) for i in inval if i.state == idle]})
+        if not okk:
+            ob2.refute("write-keeps-cache", "a write beat is acknowledged under %s but the read cache is only invalidated under %s: a merged (not yet "
+                       "flushed) write leaves the cached word valid and a following read of that word returns the old bytes" %
+                       (sorted(g), [sorted(v.guard_keys(i, False)) for i in inval if i.state == idle]), l.loc)
+    for l in racks:
         g = v.guard_keys(l, False)
         ob2.instance("cache hit", sorted(g))
-        if "~wr_valid" not in g or "~" + WE not in g:
+        if "~" + WV not in g:
             ob2.refute("hit-with-pending-write", "a cache hit is served under %s: not excluded while a merged write is pending" % sorted(g), l.loc)
-    rd_edges = [l for l in v.fsm_leaves(f, idle) if l.kind == "next" and isinstance(l.value, Const) and "READ" in l.value.v]
+    rd_states = {l.state for l in v.fsm_leaves(f) if l.kind == "assign" and key(l.target) == "port.cmd.we" and is0(l.value)}
+    rd_edges = [l for l in idle_ls if l.kind == "next" and isinstance(l.value, Const) and l.value.v in rd_states]
     for l in rd_edges:
-        if "~wr_valid" not in v.guard_keys(l, False):
+        if "~" + WV not in v.guard_keys(l, False):
             ob2.refute("read-with-pending-write", "a read command is started under %s while a merged write may be pending" % sorted(v.guard_keys(l, False)), l.loc)
-    ob2.need(len(hits) >= 1 and len(rd_edges) >= 1, "cache-hit / read-command paths not found")
-    hv = v.single_comb_def(Sym("rd_cache_hit"))
-    if hv is None or litset(conj(hv)) != {"rd_cache_valid", key(Op("==", (Sym("rd_cache_addr"), Sym("wide_addr"))))}:
-        ob2.refute("hit-def", "rd_cache_hit is %s, expected rd_cache_valid & (rd_cache_addr == wide_addr)" % (key(hv) if hv is not None else None), None)
-    fill = {key(l.target): l for l in v.fsm_leaves(f) if l.kind == "nextvalue" and key(l.target) in ("rd_cache_data", "rd_cache_addr")}
-    cmd_addr = [l for l in v.fsm_leaves(f) if l.kind == "assign" and key(l.target) == "port.cmd.addr" and l.state and "READ" in l.state]
-    ob2.instance("cache fill", {k: key(l.value) for k, l in fill.items()})
-    if set(fill) != {"rd_cache_data", "rd_cache_addr"} or key(fill["rd_cache_data"].value) != "port.rdata.data" or not cmd_addr or \
-            key(fill["rd_cache_addr"].value) != key(cmd_addr[0].value) or "port.rdata.valid" not in v.guard_keys(fill["rd_cache_data"], False) or \
-            v.guard_keys(fill["rd_cache_data"], False) != v.guard_keys(fill["rd_cache_addr"], False):
+    ob2.need(len(racks) >= 1 and len(rd_edges) >= 1, "cache-hit / read-command paths not found")
+    fills = [l for l in v.fsm_leaves(f) if l.kind == "nextvalue" and key(l.value) == "port.rdata.data"]
+    cache_addr = [x for x in CA if x != WIDE]
+    afill = [l for l in v.fsm_leaves(f) if l.kind == "nextvalue" and cache_addr and key(l.target) == cache_addr[0]]
+    cmd_addr = [l for l in v.fsm_leaves(f) if l.kind == "assign" and key(l.target) == "port.cmd.addr" and l.state in rd_states]
+    ob2.instance("cache fill", {"data": [str(x) for x in fills], "addr": [str(x) for x in afill]})
+    if len(fills) != 1 or len(afill) != 1 or not cmd_addr or key(afill[0].value) != key(cmd_addr[0].value) or \
+            "port.rdata.valid" not in v.guard_keys(fills[0], False) or v.guard_keys(fills[0], False) != v.guard_keys(afill[0], False):
         ob2.refute("cache-fill", "the read cache is not filled with port.rdata.data together with the address used for the read command", None)
     ncyc = [i for i in inval if i.state == idle and v.guard_keys(i, False) == {"~" + CYC}]
     if not ncyc:
         ob2.refute("cyc-invalidate", "the read cache is not invalidated when the master ends the cycle (~cyc)", None)
     # ---- C10.3 ----
-    cm = v.single_comb_def(Sym("wr_can_merge"))
+    cmn = sorted(wg - {CYC, STB, WE})
+    cm = v.single_comb_def(Sym(cmn[0])) if len(cmn) == 1 else None
     dj = disj(cm) if cm is not None else []
     okm = False
     if len(dj) == 2:
         ks = [litset(conj(a, p)) for a, p in dj]
-        want = {key(Op("==", (Sym("wr_addr"), Sym("wide_addr")))), "~(chunk_bit & wr_sel)"}
-        okm = {"~wr_valid"} in ks and any(k == want for k in ks)
+        okm = {"~" + WV} in ks and any(len(k) == 2 and any(WIDE in x and "==" in x for x in k) and any(x.startswith("~(") and "&" in x for x in k) for k in ks)
     ob3.instance("wr_can_merge", key(cm) if cm is not None else None)
     if not okm:
-        ob3.refute("can-merge", "wr_can_merge is %s, expected ~wr_valid | ((wr_addr == wide_addr) & ((wr_sel & chunk_bit) == 0))" % (key(cm) if cm is not None else None), None)
+        ob3.refute("can-merge", "the merge condition is %s, expected ~pending | ((pending_addr == wide_addr) & ((selected_lanes & lane_bit) == 0))" % (key(cm) if cm is not None else None), None)
     lanes_d, lanes_w = {}, {}
     for l in v.leaves:
         if l.kind == "assign" and isinstance(l.target, Op) and l.target.op == "slice":
-            cs = [c for c, p in l.guards if isinstance(c, Op) and c.op == "case" and key(c.args[0]) == "chunk"]
+            cs = [c for c, p in l.guards if isinstance(c, Op) and c.op == "case"]
             if cs and isinstance(cs[0].args[1], Const):
                 i = cs[0].args[1].v
                 b = (l.target.args[1].v, l.target.args[2].v) if isinstance(l.target.args[1], Const) and isinstance(l.target.args[2], Const) else None
-                if key(l.target.args[0]) == "wr_chunk_data":
+                if key(l.value) == "wishbone.dat_w":
                     lanes_d[i] = (b, key(l.value))
-                if key(l.target.args[0]) == "wr_chunk_we":
+                if key(l.value) == "wishbone.sel":
                     lanes_w[i] = (b, key(l.value))
     ob3.instance("lane placement", {"data": lanes_d, "we": lanes_w})
     for i in range(4):
@@ -162,19 +197,26 @@ def run(ctx):
                        (i, lanes_d.get(i), lanes_w.get(i), 32 * i, 32 * (i + 1), 4 * i, 4 * (i + 1)), None)
     clr = {key(l.target) for l in v.fsm_leaves(f) if l.kind == "nextvalue" and is0(l.value) and "port.wdata.ready" in v.guard_keys(l, False)}
     ob3.instance("cleared on write-data accept", sorted(clr))
-    if not {"wr_valid", "wr_data", "wr_we", "wr_sel"} <= clr:
-        ob3.refute("merge-clear", "the merge registers %s are not cleared when the write data is accepted" % sorted({"wr_valid", "wr_data", "wr_we", "wr_sel"} - clr), None)
-    wd = [l for l in v.fsm_leaves(f) if l.kind == "assign" and key(l.target) in ("port.wdata.data", "port.wdata.we", "port.cmd.addr") and l.state and "WRITE" in l.state]
+    wr_states = {l.state for l in v.fsm_leaves(f) if l.kind == "assign" and key(l.target) in ("port.cmd.we", "port.wdata.valid") and is1(l.value)}
+    wd = [l for l in v.fsm_leaves(f) if l.kind == "assign" and key(l.target) in ("port.wdata.data", "port.wdata.we") and l.state in wr_states]
     m = {key(l.target): key(l.value) for l in wd}
-    if m != {"port.wdata.data": "wr_data", "port.wdata.we": "wr_we", "port.cmd.addr": "wr_addr"}:
-        ob3.refute("merge-out", "the merged write is issued with %s" % m, None)
+    need_clr = {WV} | set(m.values())
+    if len(m) != 2 or not need_clr <= clr or len(clr) < 4:
+        ob3.refute("merge-clear", "the merge registers %s are not all cleared when the write data is accepted (cleared: %s)" % (sorted(need_clr), sorted(clr)), None)
     # ---- C10.4 narrow ----
-    na = v.single_comb_def(Sym("narrow_addr"))
-    wa = v.single_comb_def(Sym("wide_addr"))
-    ch = v.single_comb_def(Sym("chunk"))
-    ob4.instance("narrow path address split", {"narrow_addr": key(na) if na is not None else None, "wide_addr": key(wa) if wa is not None else None, "chunk": key(ch) if ch is not None else None})
-    if na is None or key(na) != key(Op("-", (Sym("wishbone.adr"), Op(">>", (Sym("base_address"), Const(2)))))) or wa is None or key(wa) != "narrow_addr[2:]" or \
-            ch is None or key(ch) != "narrow_addr[:2]":
+    wa = v.single_comb_def(Sym(WIDE))
+    na = ch = None
+    NARROW = None
+    if isinstance(wa, Op) and wa.op == "slice" and isinstance(wa.args[0], (Obj, Sym)):
+        NARROW = key(wa.args[0])
+        na = v.single_comb_def(wa.args[0])
+        for k_, ds in v.defs.items():
+            if len(ds) == 1 and isinstance(ds[0].value, Op) and ds[0].value.op == "slice" and key(ds[0].value.args[0]) == NARROW and \
+                    isinstance(ds[0].value.args[1], Const) and ds[0].value.args[1].v is None:
+                ch = ds[0].value
+    ob4.instance("narrow path address split", {"narrow": key(na) if na is not None else None, "wide": key(wa) if wa is not None else None, "lane": key(ch) if ch is not None else None})
+    if na is None or key(na) != key(Op("-", (Sym("wishbone.adr"), Op(">>", (Sym("base_address"), Const(2)))))) or key(wa) != "%s[2:]" % NARROW or \
+            ch is None or key(ch) != "%s[:2]" % NARROW:
         ob4.refute("narrow-addr", "narrow path: address split is %s / %s / %s, expected adr - (base>>2), [2:], [:2] for a 32-on-128-bit bridge" %
                    (key(na) if na is not None else None, key(wa) if wa is not None else None, key(ch) if ch is not None else None), None)
     # reverse bridge
